@@ -133,9 +133,10 @@ class CSSRule(cssutils.util.Base2):
     )
 
     def _getParentStyleSheet(self):
-        # rules contained in other rules (@media) use that rules parent
+        # rules contained in other rules (@media) use that rules parent,
+        # at any depth
         if self.parentRule:
-            return self.parentRule._parentStyleSheet
+            return self.parentRule.parentStyleSheet
         else:
             return self._parentStyleSheet
 
